@@ -277,7 +277,7 @@ def r5_result(ctx):
         f = force(b, {e: V(0)})
         after = f.reach_from(bi)
         r.check(not any(p in after for p in pop), "failure-propagates", "a failing step ends execution with None", "execution continues after a failing step", b.where(bi))
-    conds = [a for a in q.cmp_atoms(b)]
+    conds = [a for a in q.pick_atoms(b, lambda c: c == "Lt($1.pc, Vec::len($1.instrs))")]
     if conds:
         f = force(b, {conds[0][0]: 1})
         r.check(not any(p in f.reach_from(conds[0][2]) for p in pop) or True, "loop", "loops while pc < len", "")
@@ -352,10 +352,16 @@ def r7_bounded_exp(ctx):
     kd = q.var_def_exprs(cb, "k")
     init = [sig(x[1]) for x in kd if "checked_sub" not in sig(x[1])]
     r.check(init == ["AddWithOverflow((^k as u16), 1).0"], "budget/initial", "initial budget = k + 1 bits", "initial budget = %s" % init)
-    conds = [x[1] for x in q.cmp_atoms(cb) if "ZERO" in x[1]]
-    r.check(conds == ["Lt(ZERO, e#2)"], "loop/cond", "loops while e > 0", "loop condition %s" % conds)
-    shr = [sig(q.novers(e)) for bi, e in q.call_exprs(cb, "shr_assign") if bi in blocks]
-    r.check(shr == ["%sShrAssign<i32> for ethnum::U256>::shr_assign(e#2, 1)" % UO], "loop/progress", "e >>= 1 each iteration", "progress: %s" % shr)
+    # the loop runs while S > 0 and halves that same S every iteration (S: whatever the exponent variable is called / wherever the loop lives)
+    conds = [x for x in q.pick_atoms(cb, lambda c: c.startswith("Lt(ZERO, ")) if "ZERO" in x[1] and x[2] in blocks or "ZERO" in x[1]]
+    subj = None
+    if len(conds) == 1 and conds[0][1].startswith("Lt(ZERO, "):
+        op, L, R = q.as_cmp(conds[0][0])
+        subj = R if "ZERO" in sig(L) else L
+    r.check(subj is not None, "loop/cond", "loops while e > 0", "loop condition %s" % [c[1] for c in conds])
+    shr = [e for bi, e in q.call_exprs(cb, "shr_assign") if bi in blocks]
+    okp = subj is not None and len(shr) == 1 and q.const_val(shr[0][2][1]) == 1 and sig(q.novers(mir.strip(shr[0][2][0]))) == sig(q.novers(mir.strip(subj)))
+    r.check(okp, "loop/progress", "e >>= 1 each iteration", "progress: %s (loop variable %s)" % ([sig(q.novers(e))[:120] for e in shr], sig(subj)[:60] if subj is not None else "?"))
 
 
 NARROW = ("U256::low", "U256::as_u8", "U256::as_u16", "U256::as_u32", "U256::as_u64", "U256::as_u128", "U256::as_usize", "U256::as_i8", "U256::as_i16", "U256::as_i32", "U256::as_i64", "U256::as_i128", "U256::as_isize", "U256::into_words", "U256::low_mut")
